@@ -617,9 +617,18 @@ func (e *VerifEtcd) VerifBind(hosts ...string) {
 type VerifSpy struct {
 	E   *VerifEtcd
 	Tag string
+	// Hook, when set, runs once inside the first OnAdd (the executor registers keys while the
+	// first listener of a key is being handed the loaded values).
+	Hook func()
 }
 
-func (s *VerifSpy) OnAdd(kv KV)    { s.E.logf(VerifLogEntry{W: s.Tag, T: "add", K: kv.Key, V: kv.Val}) }
+func (s *VerifSpy) OnAdd(kv KV) {
+	s.E.logf(VerifLogEntry{W: s.Tag, T: "add", K: kv.Key, V: kv.Val})
+	if h := s.Hook; h != nil {
+		s.Hook = nil
+		h()
+	}
+}
 func (s *VerifSpy) OnDelete(kv KV) { s.E.logf(VerifLogEntry{W: s.Tag, T: "del", K: kv.Key, V: kv.Val}) }
 
 // VerifTag names the watcher of (key, exactMatch) the way the fake's log does.
